@@ -91,8 +91,8 @@ def analyse(fb, be):
     return _cache[key]
 
 
-def block_backends(fb):
-    return [b for b in discover_backends(fb) if b.cr.name in S.BLOCK_MODES]
+def block_backends(fb, crates=None):
+    return [b for b in discover_backends(fb) if b.cr.name in S.BLOCK_MODES and (crates is None or b.cr.name in crates)]
 
 
 def iv_length(fb, bm):
@@ -102,9 +102,9 @@ def iv_length(fb, bm):
 
 
 # ---------------------------------------------------------------- rules
-def check_definition(rep, fb, rule_prefix="def"):
+def check_definition(rep, fb, crates=None, rule_prefix="def"):
     """kernel summaries == mode definition (out and next chaining value), derived relation R."""
-    for be in block_backends(fb):
+    for be in block_backends(fb, crates):
         bm = analyse(fb, be)
         inst = be.name()
         loc = loc_of(be.one)
@@ -211,9 +211,9 @@ def check_par(rep, fb, rule_prefix="par"):
             rep.undecided(rule_prefix + ".closed-form", inst, str(e), loc)
 
 
-def check_inplace(rep, fb, rule_prefix="alias"):
+def check_inplace(rep, fb, crates=None, rule_prefix="alias"):
     """C12: summary with distinct in/out buffers == summary with in == out; no dependence on old output."""
-    for be in block_backends(fb):
+    for be in block_backends(fb, crates):
         bm = analyse(fb, be)
         for which, b2b, ali, body in (("one", bm.one, bm.one_alias, be.one), ("par", bm.par, bm.par_alias, be.par)):
             if body is None:
@@ -246,10 +246,10 @@ def check_inplace(rep, fb, rule_prefix="alias"):
                 rep.ob(rule_prefix + ".input-kept", inst, T.bequal(pin[1], T.bvar(iname, ZERO, T.blen(pin[1])), F), "input buffer unchanged in buffer-to-buffer form", loc, computed=T.bshow(pin[1]))
 
 
-def check_export(rep, fb, rule_prefix="ivstate"):
+def check_export(rep, fb, crates=None, rule_prefix="ivstate"):
     """C09: export(R(W)) == W ; init(export(st)) == st ; enc/dec report equal states."""
     seen = set()
-    for be in block_backends(fb):
+    for be in block_backends(fb, crates):
         bm = analyse(fb, be)
         if bm.owner is None:
             continue
@@ -293,9 +293,9 @@ def check_export(rep, fb, rule_prefix="ivstate"):
             rep.undecided(rule_prefix + ".export", inst, str(e), loc)
 
 
-def check_dependence(rep, fb, rule_prefix="dep"):
+def check_dependence(rep, fb, crates=None, rule_prefix="dep"):
     """C15: dependence kinds of decrypt kernels match the definition's propagation table; causality."""
-    for be in block_backends(fb):
+    for be in block_backends(fb, crates):
         if be.dir == "enc":
             continue
         bm = analyse(fb, be)
@@ -393,10 +393,10 @@ def _causal(b, var, elen, F):
     return True
 
 
-def check_roundtrip(rep, fb, rule_prefix="inv"):
+def check_roundtrip(rep, fb, crates=None, rule_prefix="inv"):
     """C01 (i): with equal pre-states and dec.in := enc.out the decrypt kernel returns the
     plaintext variable and both leave the same public chaining value."""
-    bes = block_backends(fb)
+    bes = block_backends(fb, crates)
     by_crate = {}
     for be in bes:
         by_crate.setdefault(be.cr.name, {})[be.dir] = be
